@@ -1,10 +1,24 @@
 """Single source for MANIFEST.json (tools/mkmanifest.py)."""
 
+RM = 'runtime monitoring: '
+
 CHECKS = [
     {'id': 'C01', 'level': 'exploration', 'ref': 'DESIGN.md section 4 C01',
-     'technique': 'runtime monitoring: differential round trip against harness-side ground truth + reference-reader monitor on the manifest',
+     'technique': RM + 'differential round trip against harness-side ground truth + reference-reader monitor on the manifest',
      'text': 'Executes the real snapshot+restore on generated trees across the settings lattice, argument shapes (repeats, overlaps, symlinks), pre-existing target states, three backend flavours and concurrency levels; every restored byte, mtime, path and the absence of extra files is compared with ground truth the harness computed itself; every file entry is additionally restored by an independent reader.',
      'note': 'Holds on the executions produced (counts in the evidence). Trusted: the harness tree materialiser, os.walk as ground truth of what the arguments denote, vflib/refimpl.py.'},
+    {'id': 'C02', 'level': 'exploration', 'ref': 'DESIGN.md section 4 C02',
+     'technique': RM + 'online monitor at the backend boundary (no referenced chunk deleted / overwritten) + reference-reader audit and real restore of every remaining snapshot after each operation of generated multi-user histories',
+     'text': 'Generated histories of snapshot / repeat / delete / clean / concurrent non-destructive groups by users related as owner, shared, shared-of-shared, clone and independent (or unencrypted) over one instrumented store. Each backend mutation is judged at the instant it takes effect against the chunk tables of the snapshot objects then present; after every operation an independent reader restores every remaining snapshot and compares it with the captured contents; real restores with the owner key are sampled and run at the end.',
+     'note': 'Holds on the histories produced. Destructive commands are never overlapped with others (README). Trusted: vflib/refimpl.py, the in-memory store.'},
+    {'id': 'C10', 'level': 'exploration', 'ref': 'DESIGN.md section 4 C10',
+     'technique': 'sanitizers + runtime monitoring: src/adapters.cpp recompiled with ASan+UBSan (exact-size heap copies per next_cut call), guard-page and poisoned-tail buffers on the -O2 build, invariant monitors on the real Python adapter',
+     'text': 'Every valid (min,max) pair over 15 values x stream lengths (exhaustive 0..6max+7 for max<=16) x contents x segmentations x keys through the real adapter over the freshly compiled chunker: losslessness, no empty chunk, bounds/alignment outside the tail zone, equality of results across differently prepared memory (ASan exact-size heap, PROT_NONE guard page, three poisoned tails), independence from earlier calls and from the segmentation outside the tail zone; next_cut called directly on every buffer size 0..3max+8 x final.',
+     'note': 'A clean sanitizer run is absence of reports on the calls made. pybind11 glue is replaced by a 25-line shim (no pybind11 headers on the image); the chunker class is compiled unmodified from the working tree.'},
+    {'id': 'C11', 'level': 'exploration', 'ref': 'DESIGN.md section 4 C11 and appendix A',
+     'technique': RM + 'relational monitor over boundary sequences of related streams (shared suffix, aligned edits, independent keys) and over chunk tables of two real snapshots',
+     'text': 'Pairs of related high-entropy streams through the real adapter: from the first common boundary on boundaries must be equal up to the tail zone; re-synchronisation within D=1024*max (failure probability < 1e-28, appendix A); independent keys give different boundaries; a file stored behind two different predecessors shares its interior chunks between two real snapshots.',
+     'note': 'Statistical bound only for random data with min <= max/16 (as the property states); observed re-join distances are reported.'},
 ]
 
 ALL = ['C%02d' % i for i in range(1, 21)]
